@@ -63,11 +63,32 @@ def encItem : Item Float → String
   | .duration s => s!"Du:{s}"
   | .dyn v u => s!"DY:{hexOfFloat v}:{hexOfString u.group}:{u.index}"
 
+def encOpt : Option String → String
+  | some s => hexOfString s
+  | none => "-"
+
+def encList (l : List String) : String := if l.isEmpty then "-" else ".".intercalate (l.map hexOfString)
+
+def encField : Field → String
+  | .text n e => s!"F:TEXT:{hexOfString n}:{encOpt e}"
+  | .dyn n e => s!"F:DYNAMIC_TYPE:{hexOfString n}:{encOpt e}"
+  | .group n items => s!"F:GROUP:{hexOfString n}:{encList items}"
+  | .typeGroup ts n => s!"F:TYPE_GROUP:{hexOfString n}:{encList ts}"
+  | .dateTime n => s!"F:DATE_TIME:{hexOfString n}:-"
+  | .date n => s!"F:DATE:{hexOfString n}:-"
+  | .time n => s!"F:TIME:{hexOfString n}:-"
+  | .money n => s!"F:MONEY:{hexOfString n}:-"
+  | .percent n => s!"F:PERCENT:{hexOfString n}:-"
+  | .number n => s!"F:NUMBER:{hexOfString n}:-"
+  | .month n => s!"F:MONTH:{hexOfString n}:-"
+  | .duration n => s!"F:DURATION:{hexOfString n}:-"
+  | .timezone n => s!"F:TIMEZONE:{hexOfString n}:-"
+
 def encTok : Tok Float → String
   | .item i => encItem i
   | .text s => s!"T:{hexOfString s}"
   | .op o => s!"O:{o.toChar.toNat}"
-  | .field _ => "F"
+  | .field f => encField f
   | .var n => s!"V:{hexOfString n}"
   | .month m => s!"Mo:{m}"
   | .tz n o => s!"TZ:{hexOfString n}:{o}"
@@ -182,6 +203,28 @@ def step (st : DState) (line : String) : DState × String :=
     ({ st with cfg := { st.cfg with rates := upd st.cfg.rates } }, "ok")
   | ["line", lang, infos] =>
     match decInfos infos with
+    | none => (st, "unsupported")
+    | some tis =>
+      let (vs', r) := evalInfos st.cfg lang st.now st.vars tis
+      let st := { st with vars := vs' }
+      match r with
+      | none => (st, "none")
+      | some (res, cinfos, raw) =>
+        let tail := "\t" ++ " ".intercalate (cinfos.map encInfo) ++ "\t" ++ " ".intercalate (raw.map encTok)
+        match res with
+        | .err _ => (st, "err" ++ tail)
+        | .ok .none => (st, "ok\t-\t" ++ tail)
+        | .ok (.month m) => (st, s!"ok\tMo:{m}\t" ++ tail)
+        | .ok (.item i) => (st, "ok\t" ++ encItem i ++ "\t" ++ hexOfString (printItem st.cfg lang st.now i) ++ tail)
+  | ["lextext", lang, t] =>
+    -- the model's own tokenizers on the raw text
+    match lexText Gen.lexEnv st.cfg lang st.now (stringOfHex t).toList with
+    | none => (st, "unsupported")
+    | some tis => (st, "toks\t" ++ " ".intercalate (tis.map fun ti =>
+        s!"{ti.start},{ti.stop},1,{hexOfString ti.text}," ++ (match ti.tok with | some t => encTok t | none => "-")))
+  | ["text", lang, t] =>
+    -- one line from raw text: model lexer, then the evaluation layers
+    match lexText Gen.lexEnv st.cfg lang st.now (stringOfHex t).toList with
     | none => (st, "unsupported")
     | some tis =>
       let (vs', r) := evalInfos st.cfg lang st.now st.vars tis
